@@ -64,6 +64,21 @@ func ownerOf(text string) int {
 
 func mkKey(site int, text string) string { return strconv.Itoa(site) + "|" + text }
 
+// A tracer submission and a plain line can have the same call site and text (the
+// main line of a submission is an ordinary call site); they are different things and
+// are accounted separately.
+func mkSubKey(site int, text string) string { return mkKey(site, text) + "|S" }
+
+func splitKey(k string) (site int, text string, sub bool) {
+	i := strings.Index(k, "|")
+	site, _ = strconv.Atoi(k[:i])
+	text = k[i+1:]
+	if strings.HasSuffix(text, "|S") {
+		text, sub = text[:len(text)-2], true
+	}
+	return
+}
+
 type witness map[string]any
 
 func judge(w *world, b *vlib.Batch) {
@@ -135,6 +150,9 @@ func judge(w *world, b *vlib.Batch) {
 				}
 			}
 			k := mkKey(r.Site, r.Text)
+			if r.Kind == kSubmit {
+				k = mkSubKey(r.Site, r.Text)
+			}
 			g.cls[i], g.keys[i] = c, k
 			st := stats[k]
 			if st == nil {
@@ -201,6 +219,7 @@ func judge(w *world, b *vlib.Batch) {
 	}
 
 	entSite := make([]int, len(entries))
+	entKey := make([]string, len(entries))
 	undecidedTexts := map[string]bool{}
 	var adLines, merged, maxDup, crossMerged, afterRet int
 	for i, e := range entries {
@@ -247,7 +266,22 @@ func judge(w *world, b *vlib.Batch) {
 			undecidedTexts[e.Text] = true
 			continue
 		}
-		st := stats[mkKey(s, e.Text)]
+		// submission or plain line? A submission that carries collected lines shows
+		// them in its formatted output; one that consists of its main line only looks
+		// like a plain line and is taken as the submission if no plain line of that
+		// site and text was logged.
+		k := mkKey(s, e.Text)
+		if len(e.Fmt) > 1 || stats[k] == nil {
+			k = mkSubKey(s, e.Text)
+		}
+		st := stats[k]
+		if st == nil {
+			viol("phantom:submission", fmt.Sprintf("the adapter received %q from %s as a tracer submission with collected lines, but no tracer was submitted with that main line", e.Text, siteName(s)), witness{"entry": e, "index": i})
+			entSite[i] = -1
+			undecidedTexts[e.Text] = true
+			continue
+		}
+		entKey[i] = k
 		st.got += int(e.Dup) + 1
 		if w.shutRet == 0 || e.Seq < w.shutRet {
 			st.gotAtRet += int(e.Dup) + 1
@@ -345,8 +379,7 @@ func judge(w *world, b *vlib.Batch) {
 	nUndecided := 0
 	for _, k := range keys {
 		st := stats[k]
-		text := k[strings.Index(k, "|")+1:]
-		site, _ := strconv.Atoi(k[:strings.Index(k, "|")])
+		site, text, _ := splitKey(k)
 		if undecidedTexts[text] {
 			nUndecided++
 			continue
@@ -407,7 +440,7 @@ func judge(w *world, b *vlib.Batch) {
 		if entSite[i] < 0 {
 			continue
 		}
-		k := mkKey(entSite[i], e.Text)
+		k := entKey[i]
 		for d := 0; d <= int(e.Dup); d++ {
 			seq = append(seq, k)
 			seqEnt = append(seqEnt, i)
@@ -513,23 +546,29 @@ func judge(w *world, b *vlib.Batch) {
 	}
 
 	// ---- O4 tracer submissions
-	entByKey := map[string]int{}
+	// the n-th submission of a key by its goroutine is the n-th entry of that key
+	entByKey := map[string][]int{}
 	for i, e := range entries {
 		if entSite[i] >= 0 && len(e.Fmt) > 0 {
-			entByKey[mkKey(entSite[i], e.Text)] = i
+			entByKey[entKey[i]] = append(entByKey[entKey[i]], i)
 		}
 	}
+	subSeen := map[string]int{}
 	var subChecked, subLines, subHelpers int
 	for _, g := range gs {
 		for i, r := range g.recs {
 			if r.Kind != kSubmit || len(r.Trace) == 0 {
 				continue
 			}
-			ei, ok := entByKey[g.keys[i]]
-			if !ok {
+			nth := subSeen[g.keys[i]]
+			subSeen[g.keys[i]]++
+			if dirtyOwner[g.id] && stats[g.keys[i]].must+stats[g.keys[i]].may > 1 {
+				continue // which arrival is which is not known when some are missing
+			}
+			if nth >= len(entByKey[g.keys[i]]) {
 				continue // not delivered: decided by the count check
 			}
-			e := entries[ei]
+			e := entries[entByKey[g.keys[i]][nth]]
 			subChecked++
 			var gotLines []string
 			for _, ln := range e.Fmt[1:] {
@@ -605,6 +644,14 @@ func judge(w *world, b *vlib.Batch) {
 		}
 	}
 
+	// ---- a plain line and a submission with the same site and text arriving next to each other
+	twinAdj := 0
+	for i := 1; i < len(entries); i++ {
+		if entSite[i] >= 0 && entSite[i] == entSite[i-1] && entries[i].Text == entries[i-1].Text && entKey[i] != entKey[i-1] {
+			twinAdj++
+		}
+	}
+
 	// ---- AddTracer observations (coverage; nil when trace is in force is not against the statement)
 	var trNil, trNonNil, trUnexpectedNil int
 	for _, o := range w.tracerObs {
@@ -650,6 +697,8 @@ func judge(w *world, b *vlib.Batch) {
 	b.Count("undecided_keys", int64(nUndecided))
 	b.Count("entries_after_shutdown_returned", int64(afterRet))
 	b.Count("level_flip_actions", w.flipActions.Load())
+	b.Count("twin_blocks", w.twinBlocks.Load())
+	b.Count("twin_plain_and_submission_arrived_adjacent", int64(twinAdj))
 	b.Count("writer_triggers", w.trigCount.Load())
 	b.Count("adapter_holds", int64(a.holds))
 	b.Count("adapter_hold_timeouts", int64(a.holdTimeouts))
